@@ -79,7 +79,7 @@ def NotInl : (d : Nat) → ATree d → Prop
 /-- the minimum number of children of a top index slab -/
 def TopKids : (d : Nat) → ATree d → Prop
   | 0, _ => True
-  | d + 1, (m : MetaSlab (ATree d)) => 2 ≤ m.children.length
+  | _ + 1, (m : MetaSlab (ATree _)) => 2 ≤ m.children.length
 
 @[simp] theorem notInl_zero (s : DataSlab) : NotInl 0 (ofData s) ↔ s.inlined = false := Iff.rfl
 @[simp] theorem notInl_succ (d : Nat) (t : ATree (d + 1)) : NotInl (d + 1) t ↔ True := Iff.rfl
